@@ -18,6 +18,29 @@ func init() {
 		}
 		return "ok " + modSx(m)
 	}
+	ops["locate"] = func(a []string) string {
+		str := string(unhx(a[0]))
+		seq := parseSeq(a[1])
+		res := "err"
+		func() {
+			defer func() {
+				if r := recover(); r != nil {
+					res = "panic"
+				}
+			}()
+			loc, err := gts.AsLocator(str)
+			if err != nil {
+				return
+			}
+			rr := loc(seq)
+			parts := make([]string, len(rr))
+			for i, r := range rr {
+				parts[i] = regionSx(r)
+			}
+			res = "ok (" + strings.Join(parts, " ") + ")"
+		}()
+		return res
+	}
 	ops["mod_show"] = func(a []string) string {
 		return "ok " + hx([]byte(sxMod(parseSx(a[0])[0]).String()))
 	}
@@ -420,6 +443,26 @@ func runLocators(o *Out) {
 	ff = ff.Insert(gts.Feature{Key: "CDS", Loc: gts.Complemented{Location: gts.Range(18, 24)}, Props: gts.Props{{"gene", "b"}}})
 	ff = ff.Insert(gts.Feature{Key: "3'UTR", Loc: gts.Range(24, 28), Props: gts.Props{{"note", "utr"}}})
 	seq := gts.New(nil, ff, letters(30))
+	// every specifier (valid or not) with every modifier text (valid or not), bare,
+	// as X@M, as @M and with a second '@': AsLocator and the located regions
+	// against the model (locate_string)
+	xs := []string{"5", "3..8", "8..3", "<3..8", "3..>8", "3^4", "complement(3..8)", "complement(5)", "complement(complement(3..8))",
+		"join(1..2,4..5)", "CDS", "gene", "source", "3'UTR", "5'UTR", "-10_signal", "misc_feature", "/gene=a", "CDS/gene=b", "CDS/gene=a/product=p q",
+		"/gene", "/", "", "x y", "12abc", "3..8x", "^", "$-3..$", "^+1..^+3", "/=a", "gene/", "CDS/gene=^a$"}
+	ms := []string{"^", "$", "^+1..^+3", "^-2..$+2", "$-3..$", "^..$", "^+40", "$-40..$", "", "x", "^+", "^..", "..$", "$..^", "^+1..^+3@^", "5"}
+	for _, x := range xs {
+		res := o.Run("locator-bare", true, "locate", hx([]byte(x)), seqSx(seq))
+		if res == "panic" {
+			o.Violate("panic", "locate "+hx([]byte(x)), x)
+		}
+		for _, m := range ms {
+			str := x + "@" + m
+			res := o.Run("locator-composed", true, "locate", hx([]byte(str)), seqSx(seq))
+			if res == "panic" {
+				o.Violate("panic", "locate "+hx([]byte(str)), str)
+			}
+		}
+	}
 	mods := []string{"", "^", "$", "^-2..$+2", "^+1..^+3", "$-3..$", "^..$"}
 	specs := []struct {
 		s    string
